@@ -130,6 +130,40 @@ def run(pid, tier, ev=None, vd=None, finish=True):
                     vd.violation("alien-" + str(e["alien"][0][0]), "a run left a file whose name is not <path>.conflict-<host>-<12 hex>[-k] of any known content: "
                                  + str(e["alien"][:2]), {"kind": "bisync-edge", "edge": e, "names": uni.names, "contents": contents})
                 break
+        # seeded long histories over larger universes (Monitor only)
+        import bisync_hist as bh
+        hexes = {}
+        for c, data in bh.CONTENT.items():
+            pth = os.path.join(work, f"hc{c}")
+            open(pth, "wb").write(data)
+            hexes[vlib.run_cmd([bins["vh_lib"], "b3", pth]).stdout.decode().strip()] = c
+        nh = 80 if tier == "quick" else 2500
+        hrecs = bh.run_all(copia, os.path.join(work, "h"), [(vlib.seed() * 10007 + i, 24, hexes) for i in range(nh)])
+        hpath = os.path.join(work, "hist.ndjson")
+        hfiles = []
+        for k in range(0, len(hrecs), 3000):
+            pth = os.path.join(work, f"hist{k // 3000}.ndjson")
+            with open(pth, "w") as f:
+                for e in hrecs[k:k + 3000]:
+                    f.write(json.dumps({kk: v for kk, v in e.items() if kk not in ("names", "stderr", "seed", "step")}) + "\n")
+            hfiles.append((pth, len(hrecs[k:k + 3000]), k))
+        for pth, n, off in hfiles:
+            rr = tlc("BisyncHistTrace", "BisyncHistTrace.cfg", workers=1, timeout=3000, env_extra={"TRACE": pth}, depth_first=True, xmx="3g")
+            res = rr.payloads.get("RESULT", [])
+            if not res or res[0]["n"] != n:
+                raise vlib.ToolError("BisyncHistTrace did not consume " + pth + rr.raw_tail[-300:])
+            for (ln, q) in res[0]["bad"]:
+                if q != want:
+                    continue
+                e = hrecs[off + ln - 1]
+                show = lambda arr: {nm: c for nm, c in zip(e["names"], arr) if c}
+                vd.violation(f"hist-{e['seed']}-{e['step']}", f"[{q}] history seed={e['seed']} run at step {e['step']}: A={show(e['A'])} B={show(e['B'])} "
+                             f"archive={'trusted ' + str(show(e['E'])) if e['tr'] else 'untrusted'} last={show(e['last'])} --bisync(exit {e['exit']})--> "
+                             f"A={show(e['A2'])} B={show(e['B2'])} archive={show(e['E2']) if e['tr2'] else 'untrusted'} {e['stderr']}",
+                             {"kind": "bisync-history", "record": e})
+        ev.extra["long_histories"] = {"histories": nh, "runs": len(hrecs), "aborted_runs": sum(1 for e in hrecs if not e["completed"]),
+                                      "runs_with_conflict_copies": sum(1 for e in hrecs if any(".conflict-" in n for n in e["names"]))}
+        ev.add(evaluations=len(hrecs), traces_validated_against_impl=len(hrecs))
         nrun = sum(1 for e in all_edges if e["ev"] == "run")
         nontrivial = sum(1 for e in all_edges if e["ev"] == "run" and e["nplan"] > 0)
         ev.extra["conformance"] = {"edges": len(all_edges), "mismatched": nonconf}
